@@ -5,6 +5,11 @@ H = os.path.dirname(os.path.dirname(os.path.abspath(__file__)))
 props = json.load(open(f"{H}/props.json"))
 na = json.load(open(f"{H}/na.json"))
 checks = []
+allp = [json.loads(l)["id"] for l in open(f"{H}/properties.jsonl")]
+for pid in allp:
+    if pid not in props and not any(n["property_id"] == pid for n in na):
+        na.append({"property_id": pid, "reason": "check under construction in this framework; not claimed at this commit"})
+na = [n for n in na if n["property_id"] not in props]
 for pid in sorted(props):
     c = props[pid]
     checks.append({
